@@ -471,6 +471,47 @@ func registerSymExternals() {
 	sym1("math.Abs", func(x string) string { return "(fp.abs " + x + ")" }, math.Abs)
 	sym1("math.Round", func(x string) string { return "(fp.roundToIntegral RNA " + x + ")" }, math.Round)
 	sym1("math.RoundToEven", func(x string) string { return "(fp.roundToIntegral RNE " + x + ")" }, math.RoundToEven)
+	// math.Max / math.Min with Go's NaN, infinity and signed-zero rules
+	mm := func(isMax bool) externalFn {
+		return func(fr *frame, args []value) value {
+			if allConcrete(args) {
+				if isMax {
+					return math.Max(args[0].(float64), args[1].(float64))
+				}
+				return math.Min(args[0].(float64), args[1].(float64))
+			}
+			x, y := fpOf(args[0]).term, fpOf(args[1]).term
+			nan := "(_ NaN 11 53)"
+			var pick, zero string
+			if isMax {
+				pick = "(ite (fp.gt " + x + " " + y + ") " + x + " (ite (fp.lt " + x + " " + y + ") " + y + " ZERO))"
+				zero = "(ite (and (fp.isZero " + x + ") (fp.isNegative " + x + ")) " + y + " " + x + ")"
+			} else {
+				pick = "(ite (fp.lt " + x + " " + y + ") " + x + " (ite (fp.gt " + x + " " + y + ") " + y + " ZERO))"
+				zero = "(ite (and (fp.isZero " + x + ") (fp.isNegative " + x + ")) " + x + " " + y + ")"
+			}
+			pick = strings.Replace(pick, "ZERO", zero, 1)
+			// infinities are covered by gt/lt; NaN wins unless an infinity of the winning sign is present
+			var inf string
+			if isMax {
+				inf = "(or (and (fp.isInfinite " + x + ") (fp.isPositive " + x + ")) (and (fp.isInfinite " + y + ") (fp.isPositive " + y + ")))"
+			} else {
+				inf = "(or (and (fp.isInfinite " + x + ") (fp.isNegative " + x + ")) (and (fp.isInfinite " + y + ") (fp.isNegative " + y + ")))"
+			}
+			infv := "(_ +oo 11 53)"
+			if !isMax {
+				infv = "(_ -oo 11 53)"
+			}
+			t := "(ite " + inf + " " + infv + " (ite (or (fp.isNaN " + x + ") (fp.isNaN " + y + ")) " + nan + " " + pick + "))"
+			return fr.i.ex.named(mkFP(t))
+		}
+	}
+	for _, n := range []string{"math.Max", "math.archMax", "math.max"} {
+		externals[n] = mm(true)
+	}
+	for _, n := range []string{"math.Min", "math.archMin", "math.min"} {
+		externals[n] = mm(false)
+	}
 	externals["math.IsNaN"] = func(fr *frame, args []value) value {
 		if s, ok := args[0].(*symv); ok {
 			return mkBool("(fp.isNaN " + s.term + ")")
@@ -681,14 +722,30 @@ func registerSymExternals() {
 		}
 		return declined{}
 	}
-	externals["strconv.FormatInt"] = func(fr *frame, args []value) value {
-		if allConcrete(args) {
-			return strconv.FormatInt(args[0].(int64), args[1].(int))
+	// number -> text of a symbolic number: a placeholder (formatting is not the subject unless a
+	// harness concretises the value first)
+	for _, n := range []string{"strconv.FormatInt", "strconv.FormatUint", "strconv.Itoa", "strconv.FormatFloat"} {
+		n := n
+		externals[n] = func(fr *frame, args []value) value {
+			if allConcrete(args) {
+				if r, ok := fr.i.callHost(hostFuncs[n], args); ok {
+					return r
+				}
+				return declined{}
+			}
+			fr.i.ex.noteAssumption("formatting stub: " + n + " of a symbolic number yields a placeholder text")
+			return symPlaceholder
 		}
-		if _, ok := args[1].(int); !ok {
-			panic(engineFault{"strconv.FormatInt: symbolic base"})
+	}
+	for _, n := range []string{"strconv.AppendInt", "strconv.AppendUint", "strconv.AppendFloat"} {
+		n := n
+		externals[n] = func(fr *frame, args []value) value {
+			if allConcrete(args) {
+				return declined{}
+			}
+			fr.i.ex.noteAssumption("formatting stub: " + n + " of a symbolic number yields a placeholder text")
+			return append(args[0].([]value), []value(toSymstr(symPlaceholder))...)
 		}
-		return declined{}
 	}
 
 	registerFmt()
